@@ -221,6 +221,8 @@ def main(pid, tier, repo=None):
     rule_hdrpred(ctx)
     rule_bitbuf(ctx)
     specconst.run(ctx, pid)
+    from . import enummap
+    enummap.run(ctx, pid)
     from . import c09
     c09.rule_init_offsets(ctx)
     ctx.not_decided("the primitive readers' own arithmetic (U64 continuation, F16 conversion), derived values other than the canvas predicates, "
